@@ -1778,6 +1778,10 @@ func (tc *typechecker) checkExplicitConversion(expr *ast.Call) *typeInfo {
 
 	arg := tc.checkExpr(expr.Args[0])
 
+	if expr.IsVariadic {
+		panic(tc.errorf(expr.Args[0], "invalid use of ... in conversion to %s", t))
+	}
+
 	// Check the special conversion from markdown to html.
 	if t.IsFormatType() && tc.isMarkdown(arg.Type) && tc.isHTML(t.Type) {
 		ti := &typeInfo{Type: t.Type}
